@@ -6,7 +6,7 @@
 set -u
 export GOFLAGS=-mod=mod GOPROXY=off
 id=$1; slot=$2; chk=${3:-$id}
-src=/tmp/seed/out-$id/$slot; wt=/tmp/seed/wt-$id; dst=/verif/seeded/$id-$slot
+src=${4:-/tmp/seed/out-$id}/$slot; wt=/tmp/seed/wt-$id; dst=/verif/seeded/$id-$slot
 [ -f $src/patch.diff ] || { echo "no patch in $src"; exit 3; }
 mkdir -p $dst; cp $src/patch.diff $dst/; cp $src/meta.json $dst/agent-meta.json 2>/dev/null
 demo=$(ls $src/*_test.go $src/*.go 2>/dev/null | head -1); cp $demo $dst/ 2>/dev/null
